@@ -164,6 +164,26 @@ Fixpoint set_text (i : nat) (text : str) (toks : tokens) : tokens :=
   | t :: r, S k => t :: set_text k text r
   end.
 
+(** the idiom of expand_home / expand_env: a first loop keeps a hand-counted [idx] over ALL tokens
+    (skipped tokens are counted too) and pushes (idx, new text); a second loop writes back
+    [tokens[i].1 = text] over the buffer in reverse *)
+Fixpoint text_collect (sel : token -> option str) (toks : tokens) (idx : nat) : list (nat * str) :=
+  match toks with
+  | [] => []
+  | t :: r =>
+      match sel t with
+      | None => text_collect sel r (S idx)
+      | Some s => (idx, s) :: text_collect sel r (S idx)
+      end
+  end.
+Definition apply_texts (buff : list (nat * str)) (toks : tokens) : tokens :=
+  fold_left (fun acc e => set_text (fst e) (snd e) acc) (rev buff) toks.
+Definition text_pass (sel : token -> option str) (toks : tokens) : tokens :=
+  apply_texts (text_collect sel toks 0) toks.
+(** what the pass does to one token *)
+Definition text_tok (sel : token -> option str) (t : token) : token :=
+  match sel t with Some s => (fst t, s) | None => t end.
+
 (* ------------------------------------------------------------------ expand_alias *)
 Fixpoint alias_collect (W : World) (toks : tokens) (idx : nat) (is_head : bool) : list (nat * str) :=
   match toks with
@@ -187,6 +207,14 @@ Definition expand_alias (tokenize : str -> tokens) (W : World) (toks : tokens) :
 Definition home_replace (W : World) (rest : str) : str :=
   let (tl, post) := split_nl rest in (home W ++ tl) ++ post.
 
+Definition home_sel (W : World) (t : token) : option str :=
+  if tag_is_empty (fst t) then
+    match strip_prefix [126] (snd t) with
+    | Some rest => Some (home_replace W rest)
+    | None => None
+    end
+  else None.
+(** the same per token, spelled out *)
 Definition expand_home_tok (W : World) (t : token) : token :=
   if tag_is_empty (fst t) then
     match strip_prefix [126] (snd t) with
@@ -194,7 +222,7 @@ Definition expand_home_tok (W : World) (t : token) : token :=
     | None => t
     end
   else t.
-Definition expand_home (W : World) (toks : tokens) : tokens := map (expand_home_tok W) toks.
+Definition expand_home (W : World) (toks : tokens) : tokens := text_pass (home_sel W) toks.
 
 (* ------------------------------------------------------------------ expand_env *)
 Definition env_in_token (t : str) : bool :=
@@ -259,12 +287,19 @@ Fixpoint once_go (W : World) (skip : nat) (t : str) : str :=
   end.
 Definition expand_env_once (W : World) (t : str) : str := once_go W 0 t.
 
+Definition env_sel (W : World) (t : token) : option str :=
+  match fst t with
+  | TBq | TSq => None
+  | _ => if env_in_token (snd t) then Some (expand_env_once W (snd t)) else None
+  end.
+(** the same per token, spelled out *)
 Definition expand_env_tok (W : World) (t : token) : token :=
   match fst t with
   | TBq | TSq => t
   | _ => if env_in_token (snd t) then (fst t, expand_env_once W (snd t)) else t
   end.
-Definition expand_env (W : World) (toks : tokens) : tokens := map (expand_env_tok W) toks.
+(** expand_env: the index buffer, transcribed (the counter runs over quoted tokens too) *)
+Definition expand_env (W : World) (toks : tokens) : tokens := text_pass (env_sel W) toks.
 
 (* ------------------------------------------------------------------ expand_brace *)
 Definition need_expand_brace (s : str) : bool := rx_search rx_need_brace s.
